@@ -127,6 +127,16 @@ func (w *world) subscribe(kind string, async bool) *sub {
 	w.subs = append(w.subs, s)
 	s.subCall = w.stamp()
 	w.mu.Unlock()
+	if kind == "precancelled" {
+		// a subscriber that arrives with a context that has already ended: it reads promptly, is entitled
+		// to nothing, and must not get in anybody's way
+		s.kind = "prompt"
+		w.mu.Lock()
+		s.cancelAt = w.stamp()
+		w.mu.Unlock()
+		cancel()
+		rec.Count("subscribe.with_ended_context", 1)
+	}
 	do := func() {
 		w.b.Subscribe(ctx, s.ch)
 		w.mu.Lock()
@@ -470,7 +480,7 @@ func TestCheck(t *testing.T) {
 	rec = mon.Open("C10")
 	defer rec.Close()
 	rec.Note("rule", "a case is one history against the real Batcher in a synctest bubble: (lockstep) seeded Batch / sleep / Subscribe / cancel / Close sequences on a 1 ms grid with prompt subscribers, judged against the debounce reference including exact delivery instants; (stall) a never-reading subscriber with 52-70 events outstanding (past the 50-slot buffer) while further Batch / Subscribe / Close calls are made, resolved by cancelling or unleashing it; (directed) the delivery loop parked at fanout.send or a forwarder at fwd.exit while cancel / Close / Subscribe / Batch are issued. Non-trivial = at least one value was delivered to a subscriber; distinct = distinct step list.")
-	rec.Note("require", []string{"park.fanout.send", "park.fwd.exit", "park.queue.loop.fired", "park.queue.exec.popped", "judged", "stall.fanout_blocked", "stall.resolved_by_cancel", "stall.resolved_by_unleash", "delivered", "closed_channels_seen", "close.overlapping_calls_checked"})
+	rec.Note("require", []string{"park.fanout.send", "subscribe.with_ended_context", "park.fwd.exit", "park.queue.loop.fired", "park.queue.exec.popped", "judged", "stall.fanout_blocked", "stall.resolved_by_cancel", "stall.resolved_by_unleash", "delivered", "closed_channels_seen", "close.overlapping_calls_checked"})
 	ps := plans()
 	rec.Planned(len(ps))
 	for idx, pl := range ps {
@@ -635,8 +645,13 @@ func lockstep(w *world, rng *mon.RNG) string {
 			w.step("sleep " + d.String())
 			time.Sleep(d)
 		case r < 92:
-			w.step("subscribe")
-			w.subscribe("prompt", false)
+			if rng.Chance(1, 4) {
+				w.step("subscribe (context already ended)")
+				w.subscribe("precancelled", false)
+			} else {
+				w.step("subscribe")
+				w.subscribe("prompt", false)
+			}
 		case r < 98:
 			if len(w.subs) > 0 {
 				s := w.subs[rng.Intn(len(w.subs))]
